@@ -134,6 +134,38 @@ Theorem C13_duplicate_names_error :
 Proof. exact duplicate_names_error. Qed.
 Print Assumptions C13_duplicate_names_error.
 
+(* Property names are HCL strings: json/structure.go makes a cty string of every name before
+   the duplicate check, with or without an evaluation context, and cty strings are equal
+   when their NFC normal forms are.  value_of_nf nf is the mapping with names compared
+   through nf; the statements hold for EVERY nf (NFC is the instance the code uses; the
+   checker is given it per case).  value_of is the instance nf = identity. *)
+Theorem C13_value_of_is_identity_normalisation :
+  forall j, value_of_nf (fun k => k) j = value_of j.
+Proof. exact value_of_nf_id. Qed.
+Print Assumptions C13_value_of_is_identity_normalisation.
+
+(* two members anywhere in an object whose names are the same HCL string: an error *)
+Theorem C13_equivalent_names_error :
+  forall (nf : list Z -> list Z) pre mid post k1 v1 k2 v2, nf k1 = nf k2 ->
+    value_of_nf nf (JObj (pre ++ (k1, v1) :: mid ++ (k2, v2) :: post)) = LError.
+Proof. exact equivalent_names_error. Qed.
+Print Assumptions C13_equivalent_names_error.
+
+(* an object that evaluates keeps one attribute per member (nothing merged or dropped) and
+   its names are pairwise different HCL strings *)
+Theorem C13_literal_object_names_distinct :
+  forall (nf : list Z -> list Z) ms attrs, value_of_nf nf (JObj ms) = LOk (LObject attrs) ->
+    map fst attrs = map fst ms /\ NoDup (map nf (map fst ms)) /\ length attrs = length ms /\
+    map (fun kv => value_of_nf nf (snd kv)) ms = map (fun kv => LOk (snd kv)) attrs.
+Proof. exact literal_object_nf. Qed.
+Print Assumptions C13_literal_object_names_distinct.
+
+(* comparing names as HCL strings only adds errors to the byte-wise mapping *)
+Theorem C13_normalisation_only_adds_errors :
+  forall (nf : list Z -> list Z) j, value_of j = LError -> value_of_nf nf j = LError.
+Proof. exact value_of_nf_error_mono. Qed.
+Print Assumptions C13_normalisation_only_adds_errors.
+
 Theorem C13_literal_null : value_of JNull = LOk LNullDyn.
 Proof. exact literal_null. Qed.
 Print Assumptions C13_literal_null.
@@ -155,3 +187,14 @@ Proof.
   cbv zeta. split; [apply json_text_dec_sound; vm_compute; reflexivity|].
   repeat split; vm_compute; reflexivity.
 Qed.
+
+(* U+00E9 and U+0065 U+0301 as names of one object: different byte strings, hence no error of
+   the byte-wise mapping, but the same HCL string: an error once names are compared through a
+   normalisation that identifies them (here: the one mapping the second spelling to the first) *)
+Example C13_example_equivalent_names :
+  let nf := fun k : list Z => if zlist_eqb k [101; 204; 129] then [195; 169] else k in
+  let obj := JObj [([195; 169], JNum 1 0); ([107], JBool true); ([101; 204; 129], JNum 2 0)] in
+  value_of obj = LOk (LObject [([195; 169], LNumber 1 0); ([107], LBool true); ([101; 204; 129], LNumber 2 0)]) /\
+  value_of_nf nf obj = LError /\
+  value_of_nf nf (JArr [obj]) = LError.
+Proof. cbv zeta. repeat split; vm_compute; reflexivity. Qed.
